@@ -58,6 +58,7 @@ def evalLine (toks : List String) : String :=
       let x := w64 sa; let y := w64 sb
       let c0 := cSem false tm x y; let c1 := cSem true tm x y; let d := docSem a s x y
       s!"{hexO c0} {hexO c1} {hexO d} {agreeS a s c0 d} {agreeS a s c1 d}"
+    | none, some (a, s) => s!"norow norow {hexO (docSem a s (w64 sa) (w64 sb))} - -"
     | _, _ => "norow"
   | ["br", name, sa, sb] =>
     match lookup Gen.C20.brRows name, brNameToOp name with
@@ -65,6 +66,10 @@ def evalLine (toks : List String) : String :=
       let x := w64 sa; let y := w64 sb
       match docSem a s x y with
       | some _ => s!"{b2s (cBranch tm x y)} {b2s (docBranch a s x y)}"
+      | none => "undef"
+    | none, some (a, s) =>
+      match docSem a s (w64 sa) (w64 sb) with
+      | some _ => s!"norow {b2s (docBranch a s (w64 sa) (w64 sb))}"
       | none => "undef"
     | _, _ => "norow"
   | ["ext", name, sa] =>
@@ -74,13 +79,14 @@ def evalLine (toks : List String) : String :=
       | _ => none
     match lookup Gen.C20.castRows name, spec with
     | some cs, some (k, sg) => s!"{hex (cCasts cs (w64 sa))} {hex (docExt k sg (w64 sa))}"
+    | none, some (k, sg) => s!"norow {hex (docExt k sg (w64 sa))}"
     | _, _ => "norow"
   | ["neg", name, sa] =>
     match lookup Gen.C20.negRows name with
     | some t =>
       let short := name == "NEGS"
       s!"{hexO (cNeg false t (w64 sa))} {hexO (cNeg true t (w64 sa))} {hex (docNeg short (w64 sa))}"
-    | none => "norow"
+    | none => s!"norow norow {hex (docNeg (name == "NEGS") (w64 sa))}"
   | ["bt", name, sa] =>
     let neg := name == "BF" || name == "BFS"
     let short := name == "BTS" || name == "BFS"
